@@ -22,12 +22,13 @@ from hypothesis import strategies as st
 import glom
 from glom import (T, S, A, Val, Fill, Match, Coalesce, Spec, Vars, Call, And, Or, M, Switch, Pipe, Glommer, GlomError,
                   Sum, Auto, Iter)
+from glom.core import TargetRegistry
 from glom.grouping import Group, First, Max
 
 from ..runner import Sub, Mismatch, HarnessBug
 
 PROPERTY = 'C20'
-RULE = ('pool of 20 evaluations covering scope bindings, Vars/globals, modes, Group accumulators, argument-mode containers, '
+RULE = ('pool of 23 evaluations covering scope bindings, Vars/globals, modes, Group accumulators, argument-mode containers, '
         'shared spec objects, a shared scope= mapping and a shared Glommer, successful and failing (error trace text compared); '
         'all pairs x all interleavings and all triples x all interleavings (2 yield points each) are enumerated. '
         'Non-trivial = a schedule with >= 2 context switches, or a nesting of depth >= 2.')
@@ -144,7 +145,19 @@ class Raiser(object):
         return 'Raiser(%s)' % self.name
 
 
-POOL_SIZE = 20
+class HandlerProbe(object):
+    """custom specifier type in the style of docs/custom_spec_types.rst: iterates over the target if its type has an
+    'iterate' handler and wraps it in a list otherwise; it asks the registry in the documented raise_exc=False form
+    ("or False if raise_exc=False")"""
+    def glomit(self, target, scope):
+        iterate = scope[TargetRegistry].get_handler('iterate', target, raise_exc=False)
+        return list(iterate(target)) if iterate else [target]
+
+    def __repr__(self):
+        return 'HandlerProbe()'
+
+
+POOL_SIZE = 23
 
 
 def make_pool():
@@ -157,6 +170,8 @@ def make_pool():
     vars_spec = (S(v=Vars()), [(y('v1'), A.v.last)], S.v.last)
     group_spec = Group({y('gk', ret=lambda t: t % 2): [y('gv')]})
     spec_obj = Spec((y('sg1'), {'tmp': Coalesce(S.tmp, default='unset'), 's': 's'}))
+    # a class of this pool only (not iterable): what another pool's evaluations left in the registry memo cannot reach it
+    fresh = type('Fresh', (object,), {'__slots__': (), '__repr__': lambda self: 'Fresh()'})
     pool = [
         ('bind-zero', lambda: {'a': {'b': 1}}, (S(k=Val('zero')), y('a1'), 'a', y('a2'), {'v': 'b', 'k': S.k}), 'glom'),
         ('fill-error', lambda: {'a': [1, 2, 3]}, (Fill(T), y('b1'), 'a', [y('b2')], S(k=Val('one')), y('b3'), 'nope'), 'glom'),
@@ -181,6 +196,12 @@ def make_pool():
         # the same operation failing on the same type of value at two different places
         ('unregistered-deep', lambda: {'a': {'x': 5}}, ('a', y('u1'), 'x', [T]), 'glom'),
         ('unregistered-shallow', lambda: {'b': 7}, (y('u2'), 'b', [T]), 'glom'),
+        # (appended: indexes of the entries above are recorded in replay files)
+        # a custom spec asks the registry whether the type can be iterated (raise_exc=False); two evaluations that need
+        # that handler for a value of the same type: one fails with UnregisteredTarget, one recovers through a default
+        ('probe-handler', lambda: {'v': fresh()}, (y('p1'), 'v', HandlerProbe(), y('p2')), 'glom'),
+        ('unregistered-fresh', lambda: {'v': fresh()}, (y('f1'), 'v', y('f2'), [T]), 'glom'),
+        ('unregistered-fresh-default', lambda: {'v': fresh()}, (y('e1'), 'v', y('e2'), Coalesce(Sum(), default='n/a')), 'glom'),
     ]
     return ctl, pool
 
@@ -245,7 +266,9 @@ def isolated():
 
 _BASELINE_BAD = []
 EXPECT_TEXT = {'unregistered-deep': "(at ['a', 'u1', 'x'])", 'unregistered-shallow': "(at ['u2', 'b'])",
-               'specglom-plain': "'tmp': 'unset'", 'specglom-bound': "'tmp': 'bound-by-this-call'"}
+               'specglom-plain': "'tmp': 'unset'", 'specglom-bound': "'tmp': 'bound-by-this-call'",
+               'unregistered-fresh': "UnregisteredTarget: target type 'Fresh' not registered for 'iterate'",
+               'unregistered-fresh-default': "'n/a'", 'probe-handler': '[Fresh()]'}
 
 
 def assert_baseline():
